@@ -422,13 +422,20 @@ func c05History(r *Run, cfg idxConfig, batches [][]RowOpJ, stream string) bool {
 		}
 		// oracle: every index equals the scan
 		st := implStep{}
+		indexErr := ""
 		checkIndexes := func(stage string, record bool) bool {
 			for _, sp := range cfg.specs {
 				cols := strings.Split(sp.Name, ",")
 				idx, err := rc.Index(cols...)
 				if err != nil {
-					r.Violation(stream, caseJSON, err.Error(), "", false, "Index() rejects a configured index", "")
-					return false
+					// the index cannot be read by its columns: the lookups below still go through it
+					if indexErr == "" {
+						indexErr = fmt.Sprintf("Index(%v): %v", cols, err)
+					}
+					if record {
+						st.groups = append(st.groups, "")
+					}
+					continue
 				}
 				single := len(sp.Cols) == 1
 				implG := map[string][]string{}
@@ -474,7 +481,13 @@ func c05History(r *Run, cfg idxConfig, batches [][]RowOpJ, stream string) bool {
 				other := table[us[r.Rng.Intn(len(us))]]
 				sp := cfg.specs[r.Rng.Intn(len(cfg.specs))]
 				var conds []CondJ
-				for _, c := range sp.Cols {
+				spCols := sp.Cols
+				if len(spCols) > 1 && r.Rng.Intn(2) == 0 {
+					// only some of the index's columns / keys: the index must not be used as if all were given
+					k := r.Rng.Intn(len(spCols))
+					spCols = spCols[k : k+1]
+				}
+				for _, c := range spCols {
 					if c.Key != nil {
 						v := &Value{K: 'M'}
 						for _, p := range src[c.Col].M {
@@ -489,7 +502,8 @@ func c05History(r *Run, cfg idxConfig, batches [][]RowOpJ, stream string) bool {
 						conds = append(conds, CondJ{Col: c.Col, Fn: "==", Val: cloneValue(src[c.Col])})
 					}
 				}
-				switch r.Rng.Intn(3) {
+				switch r.Rng.Intn(4) {
+				case 3: // no narrowing condition
 				case 0:
 					conds = append(conds, CondJ{Col: "_uuid", Fn: "==", Val: VA(AU(us[r.Rng.Intn(len(us))]))})
 				case 1:
@@ -497,11 +511,37 @@ func c05History(r *Run, cfg idxConfig, batches [][]RowOpJ, stream string) bool {
 				default:
 					conds = append(conds, CondJ{Col: "name", Fn: []string{"==", "!="}[r.Rng.Intn(2)], Val: cloneValue(other["name"])})
 				}
+				if len(conds) == 0 {
+					continue
+				}
 				if r.Rng.Intn(2) == 0 {
 					conds[0], conds[len(conds)-1] = conds[len(conds)-1], conds[0]
 				}
 				reads = append(reads, conds)
-				_, _ = queryImpl(db, rc, conds)
+				got, gerr := queryImpl(db, rc, conds)
+				// ... and return what a scan returns
+				var want []string
+				typed := true
+				for _, u := range us {
+					all := true
+					for _, c := range conds {
+						cv := table[u][c.Col]
+						if c.Col == "_uuid" {
+							cv = VA(AU(u))
+						}
+						ok, def := rfcEval(c.Fn, cv, c.Val)
+						typed = typed && def
+						all = all && ok
+					}
+					if all {
+						want = append(want, u)
+					}
+				}
+				if typed && (gerr != "" || strings.Join(got, "+") != strings.Join(want, "+")) {
+					r.Violation(stream, map[string]interface{}{"case": caseJSON, "conditions": conds}, gerr+strings.Join(got, "+"), strings.Join(want, "+"), true,
+						fmt.Sprintf("batch %d: a conditional lookup (Where) through the indexes differs from a scan", bi), "")
+					return false
+				}
 			}
 			caseJSON["reads_after_batch"] = reads
 			if !checkIndexes(" (after conditional reads that followed it)", false) {
@@ -577,6 +617,10 @@ func c05History(r *Run, cfg idxConfig, batches [][]RowOpJ, stream string) bool {
 		req = append(req, b)
 		caseJSON["batches"] = req
 		impl = append(impl, st)
+		if indexErr != "" {
+			r.Violation(stream, caseJSON, indexErr, "", false, "Index() rejects a configured index", "")
+			return false
+		}
 	}
 	// model
 	var res struct {
